@@ -364,6 +364,41 @@ def resumeFromFailed (rc : RCfg) (comp : Nat → Bool) (d : Dag) (s : S) : RS :=
 /-- a level whose children are all function nodes -/
 def resumeFrom (rc : RCfg) (d : Dag) (s : S) : RS := resumeFromC rc (fun _ => false) d s
 
+/-! ### the other way to restart a checkpoint: keep the `running` flags, take the jobs' results from disk
+
+With `_serialize_result` a child's job writes its result next to the graph; a graph restored from a
+checkpoint is then run again WITHOUT clearing the children's `running` flags, and `Composite._on_run` takes
+the branch "start from a broken process": every child marked running is asked to run, finds its result and
+finishes (its completion callback: outputs, `ran` queued); then the drain loop goes on.  In the model this
+is the first run simply CONTINUING from the cut — unless the code loses part of the cut:
+* `keepQueue = false` (now): `_on_run` empties `signal_queue` first, also on this branch — signals that were
+  queued but not delivered when the checkpoint was written are gone;
+* `iterateCopy = false` (now): the loop `for label in self.running_children` runs over the very list the
+  finishing children remove themselves from — python then skips every other entry. -/
+structure CCfg where
+  keepQueue : Bool
+  iterateCopy : Bool
+  deriving Repr, DecidableEq
+
+def CCfg.now : CCfg := { keepQueue := false, iterateCopy := false }
+/-- with fixes/C08-continue-broken-process.patch -/
+def CCfg.repaired : CCfg := { keepQueue := true, iterateCopy := true }
+
+/-- what `for x in l` visits when the body removes `x` from `l` -/
+def everyOther : List Nat → List Nat
+  | [] => []
+  | [a] => [a]
+  | a :: _ :: r => a :: everyOther r
+
+/-- the restored graph asked to run with its `running` flags kept: the results of the children that were
+out are processed (those the loop reaches; `order` = the children as the composite lists them), the drain loop
+is entered -/
+def continueFrom (cc : CCfg) (cfg : Cfg) (d : Dag) (order : List Nat) (s : S) : Option S :=
+  -- `running_children = [n.label for n in self if n.running]`: the children's own order, not the order of submission
+  let out := order.filter (fun i => s.running.contains i)
+  runActs cfg d { s with queue := if cc.keepQueue then s.queue else [], phase := .run [] }
+    ((if cc.iterateCopy then out else everyOther out).map Act.complete)
+
 /-! ### who writes which file (`Node._run_finally`, `Node.save_checkpoint`)
 
 The ownership tree of the whole graph: `parent n` is the composite owning `n`.  When a leaf raises,
